@@ -14,6 +14,7 @@ Nothing here reads jaxtyping.  Three things live here:
 """
 from __future__ import annotations
 
+import functools
 import itertools
 
 from . import dims as rdims
@@ -244,13 +245,18 @@ def all_multi(axes) -> bool:
     return all(rdims.is_multi(a) for a in axes)
 
 
+@functools.lru_cache(maxsize=1 << 17)
+def _status(r: str) -> str:
+    return classify(r)[0]
+
+
 def _uniq(cands, spec, want):
     out, seen = [], {spec, spec.strip()}
     for r in cands:
         if r in seen or r.strip() in seen:
             continue
         seen.add(r)
-        if classify(r)[0] == want:
+        if _status(r) == want:
             out.append(r)
     return out
 
